@@ -335,6 +335,75 @@ def realise_q(cfg, rng, comm):
     return [vec[q] for q in cfg["qs"]], dirvec
 
 
+def exact_values(qvecs, lay, rng):
+    """q-point values that the presentation can hold exactly (float32: multiples of 1/64; int: integers),
+    keeping Gamma, repeated points and collinearity with Gamma (every vector is an exact multiple of the first
+    non-zero one when the list is collinear)."""
+    if lay not in ("f32", "int"):
+        return qvecs
+    A = np.array(qvecs, dtype=float)
+    nz = [k for k in range(len(A)) if np.abs(A[k]).max() > 1e-9]
+    if not nz:
+        return qvecs
+    coll = all(np.linalg.norm(np.cross(A[nz[0]], A[k])) < 1e-9 for k in nz)
+    out = np.zeros_like(A)
+    if lay == "int":
+        base = [np.array(v, dtype=float) for v in ([1, 0, 2], [0, 1, 1], [2, 1, 0], [1, 1, 1], [0, 2, 1])]
+    else:
+        base = [np.array(v, dtype=float) / 64 for v in ([9, 3, 22], [5, 31, 12], [27, 7, 2], [13, 17, 30], [3, 25, 8])]
+    pick = rng.permutation(len(base))
+    seen = []
+    for k in nz:
+        for j, s_ in enumerate(seen):
+            if np.abs(A[k] - A[s_]).max() < 1e-9:
+                out[k] = out[s_]
+                break
+        else:
+            if coll and seen:
+                mult = [2.0, -1.0, 3.0][(len(seen) - 1) % 3] if lay == "int" else [0.5, -0.25, 0.75][(len(seen) - 1) % 3]
+                out[k] = out[seen[0]] * mult
+            else:
+                out[k] = base[pick[len(seen) % len(base)]]
+            seen.append(k)
+    return [out[k] for k in range(len(A))]
+
+
+def present(qvecs, lay):
+    """the same values in another container / memory layout; (n, 3) or (3,)"""
+    A = np.array(qvecs, dtype=float)
+    if lay == "list":
+        return A.tolist()
+    if lay == "tuple":
+        return tuple(tuple(r) for r in A.tolist()) if A.ndim == 2 else tuple(A.tolist())
+    if lay == "f32":
+        return A.astype(np.float32)
+    if lay == "int":
+        return np.rint(A).astype(np.int64)
+    if lay == "readonly":
+        B = A.copy()
+        B.flags.writeable = False
+        return B
+    if A.ndim == 1:
+        if lay in ("farray", "tview", "strided", "colslice"):
+            big = np.full(6, 7.25)
+            big[::2] = A
+            return big[::2]
+        return A.copy()
+    if lay == "farray":
+        return np.asfortranarray(A)
+    if lay == "tview":
+        return np.ascontiguousarray(A.T).T
+    if lay == "strided":
+        big = np.full((2 * len(A), 3), 7.25)
+        big[::2] = A
+        return big[::2]
+    if lay == "colslice":
+        wide = np.full((len(A), 5), 7.25)
+        wide[:, 1:4] = A
+        return wide[:, 1:4]
+    return A.copy()
+
+
 def qids_of(qpoints):
     ids = []
     seen = []
@@ -469,6 +538,8 @@ def run_case(world, cfg, rng, comm, with_files, evid):
     factor = ph.unit_conversion_factor
     path = cfg["path"]
     qvecs, dirvec = realise_q(cfg, rng, comm)
+    lay = cfg.get("lay", "carray")
+    qvecs = exact_values(qvecs, lay, rng)
     qids = list(cfg["qs"])
     out = dict(err="none", freq=[], eigvec=[], dm=[], gv=[], gc="na", diag="na", iter="na", permok="na")
     files = []
@@ -481,7 +552,7 @@ def run_case(world, cfg, rng, comm, with_files, evid):
         with contextlib.redirect_stdout(io.StringIO()):
             if path == "qpoints":
                 args = dict(q=[list(map(float, q)) for q in qvecs], dir=None if dirvec is None else list(map(float, dirvec)))
-                ph.run_qpoints(np.array(qvecs), with_eigenvectors=cfg["wev"], with_group_velocities=cfg["wgv"],
+                ph.run_qpoints(present(qvecs, lay), with_eigenvectors=cfg["wev"], with_group_velocities=cfg["wgv"],
                                with_dynamical_matrices=cfg["wdm"], nac_q_direction=dirvec)
                 d = ph.get_qpoints_dict()
                 raw = dict(freq=d["frequencies"], eigvec=d["eigenvectors"], dm=d["dynamical_matrices"],
@@ -534,8 +605,8 @@ def run_case(world, cfg, rng, comm, with_files, evid):
                 args["mesh_numbers"] = mn.tolist()
             elif path == "band":
                 two = bool(rng.integers(2)) and not with_files
-                paths = [np.array(qvecs)] + ([np.array(extra_q)] if two else [])
-                args = dict(paths=[p.tolist() for p in paths])
+                paths = [present(qvecs, lay)] + ([np.array(extra_q)] if two else [])
+                args = dict(paths=[np.array(p, dtype=float).tolist() for p in paths], presentation=lay)
                 ph.run_band_structure(paths, with_eigenvectors=cfg["wev"], with_group_velocities=cfg["wgv"],
                                       is_band_connection=cfg["conn"])
                 d = ph.get_band_structure_dict()
@@ -550,7 +621,7 @@ def run_case(world, cfg, rng, comm, with_files, evid):
                     files += _files_band(ph, qvecs, raw, cfg)
             elif path == "direct":
                 fs, es, ds = [], [], []
-                for q in qvecs:
+                for q in [present(q_, lay) for q_ in qvecs]:
                     if cfg["kind"] == "dm":
                         ds.append(np.array(ph.get_dynamical_matrix_at_q(q)))
                     elif cfg["kind"] == "freq":
